@@ -30,11 +30,11 @@ const (
 	markerHead = "c16Escape"
 	markerTail = "Marker9f3b7a"
 
-	slowBound   = 3 * time.Second  // measured inside the worker around the call sequence
+	slowBound   = 3 * time.Second         // measured inside the worker around the call sequence
 	slowCPU     = 2500 * time.Millisecond // and the worker burnt at least this much CPU (not just starved)
-	hangWall    = 5 * time.Second  // no answer after this long ...
-	hangCPU     = 3 * time.Second  // ... and the worker consumed this much CPU since the request => hang
-	blockedWall = 40 * time.Second // no answer and (almost) no CPU: blocked
+	hangWall    = 5 * time.Second         // no answer after this long ...
+	hangCPU     = 3 * time.Second         // ... and the worker consumed this much CPU since the request => hang
+	blockedWall = 40 * time.Second        // no answer and (almost) no CPU: blocked
 	confirmRuns = 3
 	recycle     = 4000 // requests per worker process
 )
@@ -253,7 +253,12 @@ func (p *workerPool) substitute(script string) string {
 }
 
 // run executes one request. fresh => in a newly started worker.
-func (p *workerPool) run(req Request, fresh bool) *Result {
+func (p *workerPool) run(req Request, fresh bool) *Result { return p.runOpt(req, fresh, false) }
+
+// runOpt: impatient => the worker is killed after hangWall whatever CPU it used and the dump is
+// awaited for 2 s only (native fuzzing panics when one input takes longer than 10 s; the result
+// is then only a suspect, never a verdict).
+func (p *workerPool) runOpt(req Request, fresh, impatient bool) *Result {
 	req.Script = p.substitute(req.Script)
 	req.Marker = marker()
 	payload, err := json.Marshal(&req)
@@ -311,12 +316,12 @@ func (p *workerPool) run(req Request, fresh bool) *Result {
 				continue
 			}
 			used := procCPU(pid) - cpu0
-			if used >= hangCPU || el >= blockedWall {
+			if used >= hangCPU || el >= blockedWall || impatient {
 				res.Wall, res.Hang, res.KillCPU = el, true, used
 				_ = syscall.Kill(pid, syscall.SIGQUIT) // goroutine dump: where is it stuck?
 				select {
 				case <-w.exited:
-				case <-time.After(4 * time.Second):
+				case <-time.After(map[bool]time.Duration{false: 4 * time.Second, true: 2 * time.Second}[impatient]):
 					_ = w.cmd.Process.Kill()
 					<-w.exited
 				}
@@ -368,7 +373,7 @@ func (p *workerPool) checkSentinel() []string {
 // stuckWhere classifies a SIGQUIT goroutine dump.
 func stuckWhere(dump string) string {
 	switch {
-	case strings.Contains(dump, "gopher-lua/pm."):
+	case strings.Contains(dump, "gopher-lua/pm.") || strings.Contains(dump, "gopher-lua.strGsub"):
 		return "pattern-match"
 	case strings.Contains(dump, "LTable).RawSet") && (strings.Contains(dump, "runtime.growslice") || strings.Contains(dump, "runtime.mallocgc") || strings.Contains(dump, "runtime.mem")):
 		return "array-fill" // t[n] = v fills the array part with nil up to n < 67108864: memory bomb
